@@ -584,8 +584,9 @@ func runLsnScn(sc lsnScn, srv *ldServer, prefix, backend string) (lsnScnOut, err
 				return out, err
 			}
 		}
-		// every listener on such a source has a watcher of its own: the new directory is opened twice per watcher
-		// before one full load per watcher has certainly ended
+		// every listener on such a source has a watcher of its own: when the new directory has been opened three
+		// times per watcher, every watcher has sent the new set at least one refresh period (1 s) ago, which is the
+		// margin its update goroutine gets on a loaded machine
 		for j := range swaps {
 			watchers := 0
 			for _, l := range sc.Listeners {
@@ -593,7 +594,7 @@ func runLsnScn(sc lsnScn, srv *ldServer, prefix, backend string) (lsnScnOut, err
 					watchers++
 				}
 			}
-			swaps[j].w.waitOpens(2*watchers, 20*time.Second)
+			swaps[j].w.waitOpens(3*watchers, 25*time.Second)
 		}
 		time.Sleep(100 * time.Millisecond)
 		a1, err := ask(1)
